@@ -6,6 +6,7 @@ import GrinVerif.Lemmas.SegPeaks
 import GrinVerif.Lemmas.SegLeafless
 import GrinVerif.Lemmas.SegAncestor
 import GrinVerif.Lemmas.SegDsg
+import GrinVerif.Lemmas.SegChunks
 import GrinVerif.Lemmas.SegCompleteList
 import GrinVerif.Lemmas.SegHashExtra
 import GrinVerif.Lemmas.SegPrunedList
@@ -338,6 +339,51 @@ request is never empty and starts with bitmap segment 0 (bounded sweep, kernel-e
 illustration of the model, not a theorem about all sizes) -/
 example : ∀ chunks ∈ List.range' 1 40, ∀ h ∈ List.range 4,
     ((Dsg.State.new h 11 11 11 chunks 193 142).want 15).head? = some (0, ⟨h, 0⟩) := by
+  decide +kernel
+
+/-! ## The bitmap MMR at chunk boundaries
+
+What the receiving side computes from the archive header alone (`calc_bitmap_mmr_sizes`) against
+what the serving side's `BitmapAccumulator::init` builds over the leaf set. -/
+
+/-- **number of chunks = ⌈n / 1024⌉**: `expectedChunks n` chunks of 1024 bits cover `n` leaf
+positions and one fewer does not; in particular exactly `k` at `n = 1024·k` and `k + 1` at
+`n = 1024·k + 1`, and none for an empty output MMR. -/
+theorem bitmap_chunk_count (n k : Nat) :
+    n ≤ 1024 * Dsg.expectedChunks n ∧ (1 ≤ n → 1024 * (Dsg.expectedChunks n - 1) < n) ∧
+    Dsg.expectedChunks (1024 * k) = k ∧ Dsg.expectedChunks (1024 * k + 1) = k + 1 ∧
+    Dsg.expectedChunks 0 = 0 :=
+  ⟨(Dsg.expectedChunks_spec n).1, (Dsg.expectedChunks_spec n).2, Dsg.expectedChunks_mul k,
+    Dsg.expectedChunks_mul_succ k, by decide⟩
+
+/-- **the accumulator over `n` leaf positions has exactly that many leaves**: the loop of
+`BitmapAccumulator::init` (`Dsg.accLoop`, transliterated with its `if chunk.any()` at the end) run
+over any list of set leaf indices — any order, duplicates allowed — that contains the last leaf
+`n − 1` appends exactly `⌈n / 1024⌉` chunks, the number `Desegmenter::calc_bitmap_mmr_sizes`
+expects.  (The last leaves of an archive header are the outputs of the archive block itself,
+unspent at that header.) -/
+theorem accumulator_has_expected_chunks (idxs : List Nat) (n : Nat) (hn : 1 ≤ n)
+    (hlast : n - 1 ∈ idxs) : Dsg.accChunkCount idxs n = Dsg.expectedChunks n :=
+  Dsg.accChunkCount_eq idxs n hn hlast
+
+/-- … in general the accumulator has `max set index / 1024 + 1` chunks (none for an empty leaf
+set): fewer than the receiving side expects exactly when the whole last expected chunk is spent. -/
+theorem accumulator_chunks_general (idxs : List Nat) (n : Nat) :
+    Dsg.accChunkCount idxs n =
+      if idxs.filter (· < n) = [] then 0 else Dsg.lmax (idxs.filter (· < n)) / 1024 + 1 :=
+  Dsg.accChunkCount_general idxs n
+
+/-- the bitmap tree of the desegmenter made for any archive header with at least one output is in
+a regular state, so `cache_never_blocks` / `honest_peer_completes` apply at every chunk count -/
+theorem header_bitmap_tree_regular (hb ho hr hk outs kers : Nat) (h : 1 ≤ outs) :
+    Dsg.Inv (Dsg.State.ofHeader hb ho hr hk outs kers).bitmap :=
+  fresh_bitmap_tree_regular hb (Dsg.expectedChunks outs) (by unfold Dsg.expectedChunks; omega)
+
+-- the boundary values of the sweep (kernel-evaluated): chunk count and bitmap MMR size
+example : [1, 1023, 1024, 1025, 2047, 2048, 2049, 4096, 4097].map Dsg.expectedChunks =
+      [1, 1, 1, 2, 2, 2, 3, 4, 5] ∧
+    [0, 1024, 1025, 2049, 4096, 4097].map Dsg.expectedBitmapSize = [0, 1, 3, 4, 7, 8] ∧
+    Dsg.accChunkCount [0, 5, 1024, 3000, 2048] 3001 = 3 ∧ Dsg.accChunkCount [0, 5] 2049 = 1 := by
   decide +kernel
 
 /-! ## Soundness: what validation reads is determined by the root -/
